@@ -16,7 +16,7 @@ VARIABLE sheet
 C(t, x) == [t |-> t, x |-> x]
 Comps == {C("IDENT", "solid"), C("COLOR_VALUE", "red"), C("NUMBER", "0.5"), C("DIMENSION", "1px"), C("PERCENTAGE", "50%"),
           C("STRING", "\"s\""), C("URI", "url(x)"), C("COLOR_VALUE", "#abc"), C("FUNCTION", "f(1, 2)"), C("CALC", "calc(1px + 2px)"),
-          C("UNICODE-RANGE", "u+0-7f")}
+          C("UNICODE-RANGE", "u+0-7f"), C("URI", "url(~u/x-1_2.png?a=b&c#f)")}      \* punctuation that is legal in an unquoted URL
 Seps == {"sp", ",", "/"}
 Join(a, s, b) == IF s = "sp" THEN a \o b ELSE a \o <<C("op", s)>> \o b
 Values1 == {<<c>> : c \in Comps}
@@ -49,7 +49,9 @@ Inner == {Style(<<"a">>, OneDecl), Cm("/*m*/"), [k |-> "page", sel |-> "", body 
 Medias == {[k |-> "media", queries |-> q, rules |-> r] : q \in Queries \ {<<>>}, r \in {<<a>> : a \in Inner} \cup {<<Style(<<"a">>, OneDecl), b>> : b \in Inner}}
           \cup {[k |-> "media", queries |-> <<"print">>, rules |-> <<[k |-> "media", queries |-> <<"tv">>, rules |-> <<Style(<<"a">>, OneDecl)>>], Style(<<".c">>, OneDecl)>>]}
 Others == {[k |-> "charset", enc |-> "utf-8"], [k |-> "fontface", body |-> <<D("font-family", <<C("IDENT", "x")>>, ""), D("src", <<C("URI", "url(x)")>>, "")>>],
-           [k |-> "unknown", text |-> "@x y;"], [k |-> "unknown", text |-> "@x y { z }"], Cm("/*c*/")}
+           [k |-> "unknown", text |-> "@x y;"], [k |-> "unknown", text |-> "@x y { z }"], Cm("/*c*/"),
+           \* strings and URLs whose content is a brace or a semicolon do not delimit the unknown rule
+           [k |-> "unknown", text |-> "@x { a: \"{\" }"], [k |-> "unknown", text |-> "@x { a: \"}\" }"], [k |-> "unknown", text |-> "@x \";\" y;"]}
 
 LevelSheets ==
     {<<Style(<<"a">>, <<D("left", v, "")>>)>> : v \in Values}                              \* L1
